@@ -386,6 +386,14 @@ def check(pid, spec, tier, seed, replay, t0):
     forb = grep_forbidden()
     if forb:
         raise Machinery("forbidden construct in Lean sources: " + "; ".join(forb))
+    rechecked = []
+    if tier == "thorough" and not replay:
+        # independent re-check of the compiled theorem modules by the toolchain's kernel replayer
+        for m in prop_modules:
+            r = run(["lake", "env", "leanchecker", m], cwd=LEAN)
+            if r.returncode != 0:
+                raise Machinery(f"leanchecker rejects {m}:\n" + (r.stdout.decode() + r.stderr.decode())[-2000:])
+            rechecked.append(m)
 
     obligations = []  # (name, status, detail)
     broken = []
@@ -529,7 +537,8 @@ def check(pid, spec, tier, seed, replay, t0):
         "property_id": pid, "tier": tier, "seed": seed, "level": spec.get("level", "proof"),
         "coverage": {
             "obligations": n_obl, "discharged": n_dis,
-            "checker_cmd": "lake build " + " ".join(prop_modules) + " + one `lake build Sidetree.Obligations.<fact>` per generated fact; `#print axioms` on every theorem",
+            "checker_cmd": "lake build " + " ".join(prop_modules) + " + one `lake build Sidetree.Obligations.<fact>` per generated fact; `#print axioms` on every theorem" +
+                           ("; `lake env leanchecker` re-checked " + ", ".join(rechecked) if rechecked else ""),
             "trusted_base": ["Lean 4.33.0 kernel", "axioms: propext, Classical.choice, Quot.sound only (audited per theorem)",
                              "harness/internal/extract (go/ast fact extractor)", "harness cmd/hz impl + tools/check.py comparison",
                              ] + spec.get("trusted", []),
